@@ -103,19 +103,23 @@ package main
 //@     invariant fresh(decs) && fresh(closer)
 
 //@ func encode
-//@   property C13 C08
+//@   property C13 C08 C07
 //@   returns (err)
 //@   requires [at-least-one-file] len(files) >= 1
 //@   ghost n int = 0
 //@   ghost interrupted bool = false
 //@   ghost d ref = 0
+//@   ghost libenc ref = 0
 //@   at call decoder: ghost d = ref(result0)
 //@   at recv sigch: ghost interrupted = true
+//@   at call NewCSVEncoder: ghost libenc = ref(result)
+//@   at call NewEncoder: ghost libenc = ref(result)
+//@   at call NewJSONEncoder: ghost libenc = ref(result)
 //@   at call Decode: assert [each-record-once-in-order] result == nil ==> rec(arg1) == ditem(d, n)
-//@   at call Encode: assert [encodes-the-record-just-decoded] rec(arg1) == ditem(d, n) ; ghost n = n + 1
+//@   at call Encode: assert [encodes-the-record-just-decoded] rec(arg1) == ditem(d, n) ; assert [with-the-library-encoder-of-the-chosen-format-itself] ref(arg0) == libenc ; ghost n = n + 1
 //@   ensures [all-records-encoded-unless-interrupted] err == nil && !interrupted && d != 0 ==> n == dlen(d)
 //@   loop 1
-//@     invariant d != 0 && d == ref(dec) && 0 <= n && n == dpos(d) && n <= dlen(d) && !interrupted
+//@     invariant d != 0 && d == ref(dec) && 0 <= n && n == dpos(d) && n <= dlen(d) && !interrupted && ref(enc) == libenc
 
 //@ func clearScreen
 //@   trusted
@@ -148,23 +152,46 @@ package main
 // Everything the command sets up afterwards (resolver, TLS, prometheus, the Attacker's options) is
 // over-approximated (pragma unknowncalls havoc): the guard must hold whatever that code does.
 //@ func attack
-//@   property C19 C02
+//@   property C19 C02 C04 C14 C18
 //@   pragma unknowncalls havoc
 //@   pragma obligations contract
 //@   pragma frame off
+//@   keeps *opts
 //@   returns (err)
 //@   requires [non-nil] opts != nil
 //@   ghost attacked bool = false
+//@   ghost bodyRead bool = false
 //@   at call Attack: ghost attacked = true
+//@   at call ReadAll: ghost bodyRead = true
 //@   forbid [only-the-signal-pump-stops-the-attack] call Stop
+//@   before call NewJSONTargeter: assert [default-body-and-headers-forwarded] (opts.bodyf != "" ==> bodyRead) && arg1 == body && arg2 == opts.headers.Header
+//@   before call NewHTTPTargeter: assert [default-body-and-headers-forwarded] (opts.bodyf != "" ==> bodyRead) && arg1 == body && arg2 == opts.headers.Header
+//@   before call Redirects: assert [flag-forwarded-unchanged] arg0 == opts.redirects
+//@   before call Timeout: assert [flag-forwarded-unchanged] arg0 == opts.timeout
+//@   before call Workers: assert [flag-forwarded-unchanged] arg0 == opts.workers
+//@   before call MaxWorkers: assert [flag-forwarded-unchanged] arg0 == opts.maxWorkers
+//@   before call KeepAlive: assert [flag-forwarded-unchanged] arg0 == opts.keepalive
+//@   before call Connections: assert [flag-forwarded-unchanged] arg0 == opts.connections
+//@   before call MaxConnections: assert [flag-forwarded-unchanged] arg0 == opts.maxConnections
+//@   before call HTTP2: assert [flag-forwarded-unchanged] arg0 == opts.http2
+//@   before call H2C: assert [flag-forwarded-unchanged] arg0 == opts.h2c
+//@   before call MaxBody: assert [flag-forwarded-unchanged] arg0 == opts.maxBody
+//@   before call UnixSocket: assert [flag-forwarded-unchanged] arg0 == opts.unixSocket
+//@   before call ChunkedBody: assert [flag-forwarded-unchanged] arg0 == opts.chunked
+//@   before call DNSCaching: assert [flag-forwarded-unchanged] arg0 == opts.dnsTTL
+//@   before call ConnectTo: assert [flag-forwarded-unchanged] arg0 == opts.connectTo
+//@   before call SessionTickets: assert [flag-forwarded-unchanged] arg0 == opts.sessionTickets
+//@   before call ProxyHeader: assert [flag-forwarded-unchanged] arg0 == opts.proxyHeaders.Header
+//@   before call Attack: assert [rate-duration-and-name-forwarded-unchanged] arg2 == boxof(opts.rate) && arg3 == opts.duration && arg4 == opts.name
 //@   ensures [unlimited-rate-demands-max-workers] old(opts.maxWorkers) == 18446744073709551615 && old(opts.rate.Freq) == 0 ==> err != nil && !attacked
 //@   loop 1
-//@     invariant -1 <= rangeindex && rangeindex < 2 && opts == old(opts) && !attacked && files != nil
+//@     invariant -1 <= rangeindex && rangeindex < 2 && opts == old(opts) && !attacked && !bodyRead && files != nil
+//@     invariant rangeindex >= 1 && opts.bodyf != "" ==> has(files, opts.bodyf)
 
 // processAttack: every result received from the attack is observed (if metrics are on) and written
 // exactly once, in the order received, until the channel is closed, a write fails or a second signal.
 //@ func processAttack
-//@   property C02
+//@   property C02 C20
 //@   pragma frame off
 //@   pragma concurrent yes
 //@   shared done, closed
@@ -175,13 +202,16 @@ package main
 //@   requires [metrics-constructed-if-any] pm != nil ==> wfMetrics(pm)
 //@   ghost got int = 0
 //@   ghost written int = 0
+//@   ghost observed int = 0
 //@   at recv res: ghost got = got + 1
+//@   at call Observe: assert [observes-the-result-just-received] arg1 == r && ok && observed == written ; ghost observed = observed + 1
 //@   before call Observe: assume [the-attack-sends-only-non-nil-results] arg1 != nil
 //@   before call Encode: assume [the-attack-sends-only-non-nil-results] arg1 != nil
-//@   at call Encode: assert [writes-the-result-just-received] arg1 == r && ok && written + 1 == got ; ghost written = written + 1
+//@   at call Encode: assert [writes-the-result-just-received] arg1 == r && ok && written + 1 == got ;
+//@        assert [every-written-result-was-observed-first-when-metrics-are-on] pm != nil ==> observed == written + 1 ; ghost written = written + 1
 //@   ensures [every-received-result-written-once] err == nil ==> written == got || written + 1 == got
 //@   loop 1
-//@     invariant written == got && atk == old(atk) && atk != nil && atk.stopch == old(atk.stopch) && enc == old(enc) && enc != nil && pm == old(pm)
+//@     invariant written == got && (pm != nil ==> observed == written) && atk == old(atk) && atk != nil && atk.stopch == old(atk.stopch) && enc == old(enc) && enc != nil && pm == old(pm)
 //@     invariant (closed(atk.stopch) <==> done(&atk.stopOnce)) && (pm != nil ==> wfMetrics(pm))
 
 // ---------------------------------------------------------------------------------- C17
